@@ -183,8 +183,11 @@ func vh_C10_forward() {
 		pkt = &sshFxpRemovePacket{ID: id, Filename: "rel"}
 		want = vHCall{Op: "Filecmd", Method: "Remove", Filepath: abs("rel")}
 	case 11:
-		pkt = &sshFxpSymlinkPacket{ID: id, Targetpath: "../tgt//x", Linkpath: "rel"}
-		want = vHCall{Op: "Filecmd", Method: "Symlink", Filepath: "../tgt//x", Target: abs("rel")} // target text verbatim
+		// target text verbatim - relative or absolute, clean or not (the absolute
+		// spellings added after seeded change C10-f)
+		tgt := []string{"../tgt//x", "/abs/dir/../o//x/", "/../..", "", "/"}[vChoice(5)]
+		pkt = &sshFxpSymlinkPacket{ID: id, Targetpath: tgt, Linkpath: "rel"}
+		want = vHCall{Op: "Filecmd", Method: "Symlink", Filepath: tgt, Target: abs("rel")}
 	case 12:
 		pkt = &sshFxpExtendedPacket{ID: id, SpecificPacket: &sshFxpExtendedPacketHardlink{ID: id, Oldpath: "rel", Newpath: "new"}}
 		want = vHCall{Op: "Filecmd", Method: "Link", Filepath: abs("rel"), Target: abs("new")}
